@@ -575,6 +575,8 @@ def generate():
     report["files"].append("Gen/DiffKern.lean")
     report["kernels"].update(py2lean_kern.generate_algkern(fns, gen_dir, write_if_changed))
     report["files"].append("Gen/AlgKern.lean")
+    report["kernels"].update(py2lean_kern.generate_mulkern(fns, gen_dir, write_if_changed))
+    report["files"].append("Gen/MulKern.lean")
     # ---- Dispatch.lean (for the line-protocol driver): every generated def by name ------------
     import re as _re
     cases = []
